@@ -108,10 +108,10 @@ macro_rules! impl_with_fallback_method {
                 // the month code is derived from it once it has been resolved.
                 (Some(month), None) => (Some(month), None),
                 (None, Some(mc)) => (Some(mc.to_month_integer()).map(Into::into), Some(mc)),
-                (None, None) => (
-                    Some(fallback.month()).map(Into::into),
-                    Some(fallback.month_code()),
-                ),
+                // The receiver's month is kept by its month code alone: its ordinal month differs
+                // from the code's number after a leap month, and the two would be refused as
+                // inconsistent.
+                (None, None) => (None, Some(fallback.month_code())),
             };
             #[allow(clippy::needless_update)] {
                 Ok(Self {
